@@ -62,9 +62,9 @@ def correspond(ctx):
                                   replay={'catalogue': res['catalogue_bad']}))
     hdr = cc.HEADER + 'Require Import SC3.model.GraphSem.\n'
     items = ['(%s, %s)' % (cc.cprog(p), cc.cresult(d)) for p, d in zip(cases, out)]
-    body = 'Eval vm_compute in bad_idx (fun c => result_matches (compile_flag T dce_strict dce_guard (fst c)) (snd c)) cases.'
+    body = 'Eval vm_compute in bad_idx (fun c => result_matches (compile_flag T dce_strict dce_guard sub_guard (fst c)) (snd c)) cases.'
     bad, errs = fw.check_shards(ctx, 'c01', hdr, items, body, shard=60)
-    body2 = 'Eval vm_compute in bad_idx (fun c => sem_test T dce_strict dce_guard (fst c)) cases.'
+    body2 = 'Eval vm_compute in bad_idx (fun c => sem_test T dce_strict dce_guard sub_guard (fst c)) cases.'
     bad2, errs2 = fw.check_shards(ctx, 'c01sem', hdr, items, body2, shard=60)
     for e in (errs + errs2)[:3]:
         c.failures.append(Failure('correspondence', 'coq evaluation of the graph model failed: ' + e))
